@@ -220,8 +220,8 @@ theorem runTask_inv : ∀ (fuel : Nat) (c : Conn) (n : Nat) (sa : Option Nat), C
   | 0, _, _, _, h => h
   | fuel + 1, c, n, sa, h => by
     rw [runTask_succ]
-    have hp := pollConn_inv 100000 _ (CInv_of_phase (prePoll_phase c n sa) h)
-    generalize pollConn 100000 (prePoll c n sa) = x at hp
+    have hp := pollConn_inv (connFuel (prePoll c n sa)) _ (CInv_of_phase (prePoll_phase c n sa) h)
+    generalize pollConn (connFuel (prePoll c n sa)) (prePoll c n sa) = x at hp
     obtain ⟨c1, res⟩ := x
     cases res with
     | finished => exact hp
@@ -1002,10 +1002,10 @@ theorem runTask_stall : ∀ (fuel : Nat) (c : Conn) (n : Nat) (sa : Option Nat),
   | fuel + 1, c, n, sa, hinv, h => by
     rw [runTask_succ] at h ⊢
     have hinv0 := CInv_of_phase (prePoll_phase c n sa) hinv
-    have hp := pollConn_inv 100000 _ hinv0
-    have hoc := pollConn_oc 100000 _ hinv0
+    have hp := pollConn_inv (connFuel (prePoll c n sa)) _ hinv0
+    have hoc := pollConn_oc (connFuel (prePoll c n sa)) _ hinv0
     generalize (prePoll c n sa).env.tr = t0 at hoc
-    generalize pollConn 100000 (prePoll c n sa) = x at hp hoc h ⊢
+    generalize pollConn (connFuel (prePoll c n sa)) (prePoll c n sa) = x at hp hoc h ⊢
     obtain ⟨c1, res⟩ := x
     cases res with
     | finished => exact absurd h ret_ne_stall
@@ -1166,10 +1166,14 @@ theorem exKS_phase : exKS.phase = .parseReq rpK .start := by
   | closing _ _ _ _ => rw [hph] at h; cases h
   | finished => rw [hph] at h; cases h
 
-theorem exK_poll : pollConn 100000 (prePoll exK 0 none) = pollConn 99995 exKR := by
-  rw [show (100000 : Nat) = 99997 + 3 from rfl, pollConn_stepN 99997 3 _ (by decide +kernel)]
-  have h1 := C08.parse_before_read 99996 exKS _ _ _ exKS_phase (by decide +kernel) rpK_parse
-  have h2 := C08.output_written_before_read 99995
+theorem exK_poll : pollConn (connFuel (prePoll exK 0 none)) (prePoll exK 0 none) =
+    pollConn (connFuel (prePoll exK 0 none) - 5) exKR := by
+  obtain ⟨K, hK⟩ : ∃ K, connFuel (prePoll exK 0 none) = (K + 3) + 3 :=
+    ⟨connFuel (prePoll exK 0 none) - 6, by unfold connFuel; omega⟩
+  have h5 : connFuel (prePoll exK 0 none) - 5 = K + 1 := by omega
+  rw [h5, hK, pollConn_stepN (K + 3) 3 _ (by decide +kernel)]
+  have h1 := C08.parse_before_read (K + 2) exKS _ _ _ exKS_phase (by decide +kernel) rpK_parse
+  have h2 := C08.output_written_before_read (K + 1)
     { exKS with phase := .parseReq rpK (.writing [] false) } rpK [] rfl (by decide +kernel) []
     exKS.env.tr rfl
   exact h1.trans h2
